@@ -86,6 +86,8 @@ ApiIlisOK(o) ==
     /\ \A q \in Rng(o.ilis_by_status) :
           /\ {<<t[1], t[2], t[3]>> : t \in {t \in Rng(q[2]) : t[1] # "~"}} = {t \in used : t[2] = q[1]}
           /\ Cardinality({k \in DOMAIN q[2] : q[2][k][1] = "~"}) = (IF q[1] = "proposed" THEN nprop ELSE 0)
+    \* a Synset object kept from an earlier observation reports the ILI a fresh look-up reports
+    /\ \A q \in Rng(o.held) : q[3] = q[4]
     \* Wordnet.ili(id): that entry, wn.Error for an unknown id
     /\ \A q \in Rng(o.ilis_by_id) :
           IF \E t \in used : t[1] = q[1] THEN q[2] = "ok" /\ <<q[3], q[4], q[5]>> \in used
